@@ -503,6 +503,35 @@ def body(prop, args, seed, t0):
             tie_broken("translated_check_t7", bad7, "translator disagreement (Pauli classes)")
     # --- T7 end
 
+    # --- T18: the translated operator utilities of C09 on PauliTerm / PauliSum objects (harness/translate_t18.py ->
+    # OQ/Generated/TranslatedC09Ops.lean, tied to the model of C09 by Props/C09_TranslatedOps.lean) are run at Cyc8 through the generated glue
+    # OQ/Generated/TranslatedDriverT18.lean (tag "TRT18") and compared with the real functions on real objects
+    # (harness/translated_check_t18.py); a disagreement is a broken tie (`tie_broken`), never a verdict by itself
+    if prop == "C09" and driver.available() and (build_ok or common.lake_build(["oqdriver"])[0]):
+        try:
+            from harness import translated_check_t18 as _tc18
+            from harness import tables_t18 as _tb18
+            n18, bad18, untr18 = _tc18.run(seed, only=prop)
+            tie["translated_t18_vs_python_function"] = n18
+            tie["untranslatable_now"] = list(tie.get("untranslatable_now", [])) + untr18
+            tie["translated_functions"] = list(tie.get("translated_functions", [])) + [
+                f"operators.{i['meth']}{'' if i['cls'] is None else ' of ' + i['cls']} -> TranslatedOps.{nm}"
+                for nm, i in _tb18.current()[1].items()]
+        except Timeout:
+            raise
+        except Exception as e:  # noqa: BLE001  (same policy as for the self-checks above)
+            import traceback
+            tie["self_check_crashed"] = f"{type(e).__name__}: {e}"[:300]
+            if not broken:
+                traceback.print_exc()
+                tie_broken("self-check crashed (T18)", [f"{type(e).__name__}: {str(e)[:300]}"], "translator self-check crashed")
+            else:
+                print(f"  note: a translator self-check could not run ({type(e).__name__}: {str(e)[:160]}); {len(broken)} obligation(s) are broken, going on")
+            bad18 = []
+        if bad18:
+            tie_broken("translated_check_t18", bad18, "translator disagreement (operator utilities)")
+    # --- T18 end
+
     if any(b["decl"].startswith("translation-tie:") for b in broken):
         discharged = min(discharged, max(obligations - 1, 0))
 
